@@ -78,13 +78,13 @@ CHECKS = {
         ],
     },
     "C01": {
-        "units": ["dual_ops"],
+        "units": ["dual_core", "dual_ops"],
         "level": "proof",
         "assumptions": DUAL_ASSUMPTIONS + AD_ASSUMPTIONS,
         "uncovered": [],
     },
     "C02": {
-        "units": ["dual_ops"],
+        "units": ["dual_core", "dual_ops"],
         "level": "proof",
         "assumptions": DUAL_ASSUMPTIONS + AD_ASSUMPTIONS,
         "uncovered": [],
